@@ -1212,3 +1212,11 @@ class ConstraintChain:
     def to_string(self) -> str:
         """Return chain as string."""
         return "∧".join(c.to_string() for c in self.constraints)
+
+    def __repr__(self) -> str:
+        """Stable representation (no memory address): the chain text.
+
+        Error messages embed the repr of values that hold a chain (holographic patterns);
+        the default object repr made identical calls return different messages.
+        """
+        return f"ConstraintChain({self.to_string()!r})"
